@@ -287,8 +287,13 @@ class Out(object):
             if alwaysS and val in '-+*/':  # calc, */ not really but do anyway
                 self.out.append(' ')
             elif val in '+>~':  # enclose selector combinator
-                self.out.insert(-1, self.ser.prefs.selectorCombinatorSpacer)
-                self.out.append(self.ser.prefs.selectorCombinatorSpacer)
+                combspacer = self.ser.prefs.selectorCombinatorSpacer
+                if 'CHAR' == type_ and not combspacer:
+                    # a plain token (e.g. in an unknown @rule), not a selector
+                    # combinator: "1 + 2" must not become "1+2"
+                    combspacer = ' '
+                self.out.insert(-1, combspacer)
+                self.out.append(combspacer)
             elif ')' == val and not keepS:  # CHAR funcend
                 # TODO: pref?
                 self.out.append(' ')
